@@ -5,12 +5,13 @@ import c01
 class Property(c01.Property):
     prop = "C08"
     comp = "c08"
-    coq_targets = ["theories/Properties/C08.vo"]
+    coq_targets = ["theories/Properties/C08.vo", "theories/Properties/C08v.vo"]
     theorems = []
     assumptions = [
         "heap exhaustion from eagerly pre-allocating a declared container length and stack exhaustion from the recursion of finish_processing are runtime facts the model cannot exhibit (recorded findings F3, F11); the harness observes them as aborts of a child process",
         "forged scope values are outside the quantifier",
-        "the functional half (`the value a sequential decoder finds at that position`) is decided by the model correspondence plus theorem C01 for inputs that are complete well-formed documents; for malformed inputs the model itself is the sequential reference",
+        "the functional half is theorem C08_value: on EVERY byte string the model's outputs equal seq_run, a stateless sequential decoder (Read/SeqSpec.v: skip the preceding siblings, decode the header at the position; its one-value header decoder is the model's lz_new, which C01/C08_value_wellformed tie to the wire encoding on well-formed documents); the extracted seq_run is also run against the implementation on every malformed input of up to 3000 bytes",
+        "the reader decodes a map pair as a unit (key, then the header of its value): the key of pair i is a ReadError when value i's header is damaged (C08_key_needs_value_header) - an error, never a fabricated value (C08_never_fabricates against the natural decoder)",
     ]
 
     def property_failure(self, block, I, S, M):
